@@ -728,7 +728,11 @@ func (pr *printer) source() string {
 	}
 
 	var b strings.Builder
-	b.WriteString("//go:build cff\n\n")
+	if p.GoTag != "" {
+		fmt.Fprintf(&b, "//go:build cff && %s\n\n", p.GoTag)
+	} else {
+		b.WriteString("//go:build cff\n\n")
+	}
 	fmt.Fprintf(&b, "package %s\n\n", p.Name)
 	b.WriteString("import (\n\t\"context\"\n\n\t\"go.uber.org/cff\"\n")
 	if pr.helper.Len() > 0 {
